@@ -246,6 +246,41 @@ impl Commitments {
     }
 }
 
+// ---------------------------------------------------------------------------------------------------------------------
+// Table::from_bytes (air/src/proof/table.rs): the first num_rows * num_cols element encodings of the byte slice, row-major;
+// Err exactly when they cannot be decoded. (It does not look at what follows: its caller Queries::parse compares the byte
+// length with num_rows * num_cols * ELEMENT_BYTES first.) The four assertions are the documented pre-condition.
+pub const MAX_ROWS: usize = /*@@expr source="air/src/proof/table.rs" anchor="const MAX_ROWS: usize ="*/;
+pub const MAX_COLS: usize = /*@@expr source="air/src/proof/table.rs" anchor="const MAX_COLS: usize ="*/;
+pub struct Table { pub data: Vec<T>, pub row_width: usize }
+impl SliceReader {
+    #[verifier::external_body]
+    pub fn new_from_slice(source: &[u8]) -> (r: SliceReader) ensures r.rem@ == source@ { unimplemented!() }
+}
+impl Table {
+    //@@ source air/src/proof/table.rs
+    //@@ extract anchor="pub fn from_bytes("
+    //@@ rewrite-re "assert!\(([^,]+),[^;]*\);" => "if !(\1) { must_not_panic(); }"
+    //@@ rewrite "SliceReader::new(bytes)" => "SliceReader::new_from_slice(bytes)"
+    pub fn from_bytes(
+        bytes: &[u8],
+        num_rows: usize,
+        num_cols: usize,
+    ) -> (r: Result<Self, DeserializationError>)
+        requires 0 < num_rows <= MAX_ROWS, 0 < num_cols <= MAX_COLS
+        ensures
+            r is Ok <==> dec_many(bytes@, (num_rows * num_cols) as nat) is Some,
+            r is Ok ==> r->Ok_0.row_width == num_cols && r->Ok_0.data@ == dec_many(bytes@, (num_rows * num_cols) as nat)->Some_0.0
+                && r->Ok_0.data.len() == num_rows * num_cols,
+    {
+        proof {
+            assert(MAX_ROWS <= 255 && MAX_COLS <= 255) by (compute);
+            assert(num_rows * num_cols <= 255 * 255) by (nonlinear_arith) requires num_rows <= 255, num_cols <= 255;
+        }
+        /*@@body*/
+    }
+}
+
 proof fn oodv_canary_must_fail(b: Seq<u8>)
     requires trace_ok(b, 1)
     ensures b.len() == 1
